@@ -12,5 +12,13 @@ for p in sorted(glob.glob(os.path.join(root, "findings", "*.json"))):
         out.extend(data)
     except Exception as e:
         print("skip", p, e)
-json.dump({"findings": out}, open(os.path.join(root, "known_findings.json"), "w"), indent=1)
+for f in out:
+    what = " ".join(str(f.get("what", "")).split())
+    if f.get("status") == "fixed":
+        f["line"] = "fixed: property=%s %s %s" % (f.get("property"), f.get("commit", "?"), what)
+    else:
+        f["line"] = "KNOWN-FINDING: property=%s %s" % (f.get("property"), what)
+json.dump({"format": "one entry per finding; status 'known' = genuine defect recorded and suppressed by its sig (printed as KNOWN-FINDING by the check), "
+                     "status 'fixed' = repaired by the named fix: commit in /repo (suppresses nothing); 'line' is the entry in the one-line form",
+           "findings": out}, open(os.path.join(root, "known_findings.json"), "w"), indent=1)
 print(len(out), "findings")
